@@ -149,3 +149,30 @@ func init() {
 		return out
 	}
 }
+
+func init() {
+	// C20: histograms created concurrently, in different scopes of one root, from specifications whose cache identities collide
+	scenarioFamilies["c20"] = func(tier string, rng *rand.Rand) []scenarioSet {
+		var out []scenarioSet
+		pts := []string{"op_hnew", "bc_rlock", "bc_lock", "bc_hit_check"}
+		combos := [][2][]int64{{{0, 2}, {1, 3}}, {{2, 0}, {5, 4}}, {{3, 5}, {0, 6}}, {{7, 4}, {4, 2}}}
+		n := 4000
+		if tier == "thorough" {
+			n = 200000
+		}
+		for _, cb := range combos {
+			mk := func(h string, vs []int64) []Op {
+				ops := []Op{{Op: "sub", H: h, Name: h}}
+				for i, v := range vs {
+					ops = append(ops, Op{Op: "hnew", H: h, M: []string{"x", "y", "z"}[i], V: v})
+				}
+				return ops
+			}
+			out = append(out, scenarioSet{mode: "dfs", maxExec: n, sc: &Scenario{
+				Name: "c20-cache", Reporter: "cached", Points: pts, NoQuiesce: true,
+				Threads: []ThreadSpec{{Name: "a1", Ops: mk("s1", cb[0])}, {Name: "a2", Ops: mk("s2", cb[1])}},
+			}})
+		}
+		return out
+	}
+}
